@@ -227,6 +227,14 @@ func (w *tableWorld) drawCfg() {
 		g.rogue, g.judge = true, true
 	case f("C01"):
 		g.admin, g.topups = true, true
+	case f("C05"):
+		// busts and re-buys around the settlement, with subscribers that keep the engine waiting
+		g.admin, g.topups = true, true
+		if c.CfgBool("c05_busts", 1, 2) {
+			g.allinBias = 80
+		}
+		g.slowSub = c.CfgBool("c05_slow_subscriber", 1, 2)
+		g.slowSubOneIn = 5
 	case f("C02"):
 		// membership changes queued behind a lock that a slow listener keeps held while the hand ends
 		g.admin, g.leaves = true, true
@@ -1392,8 +1400,9 @@ func (w *tableWorld) alignedTask(wake chan struct{}, stream string) {
 			continue
 		}
 		base := w.mon.lastSettledMs
-		targets := []int64{base + int64(g.interval)*1000, base + int64(g.interval)*1000 + specOpenGameTimeoutS*1000}
-		tgt := targets[st.Draw(2)]
+		// (the third target is the settlement itself: the engine is between "results applied" and "table reset")
+		targets := []int64{base + int64(g.interval)*1000, base + int64(g.interval)*1000 + specOpenGameTimeoutS*1000, base}
+		tgt := targets[st.Draw(3)]
 		if d := tgt - c.NowMs(); d > 0 {
 			simrt.Sleep(0, time.Duration(d)*time.Millisecond)
 		}
@@ -1422,7 +1431,17 @@ func (w *tableWorld) alignedTask(wake chan struct{}, stream string) {
 		switch st.Pick(25, 25, 15, 15, closeW, 10) {
 		case 0:
 			if g.topups {
-				w.doRedeem(ids[st.Draw(len(ids))], int64(1+st.Draw(int(w.unit)*10+1)))
+				id := ids[st.Draw(len(ids))]
+				var busted []string
+				for _, p := range tb.State.PlayerStates {
+					if p.Bankroll == 0 && !strings.HasPrefix(p.PlayerID, "z") {
+						busted = append(busted, p.PlayerID)
+					}
+				}
+				if len(busted) > 0 && st.Chance(2, 3) {
+					id = busted[st.Draw(len(busted))] // a busted player buys chips again
+				}
+				w.doRedeem(id, int64(1+st.Draw(int(w.unit)*10+1)))
 			}
 		case 1:
 			if g.lateJoin && next%100 < 6 {
